@@ -19,7 +19,7 @@ variable {α : Type} [Field α] [LinearOrder α] [IsStrictOrderedRing α]
 /-- `sansScaling (Matrix33)` = shear * rotation * translation, hence `scale * sansScaling (m) = m` -/
 theorem M33_sansScaling_recompose {tmin tmax : α} {sqrt sin cos : α → α} {atan2 : α → α → α}
     (hs : SqrtSpec sqrt) (ht : TrigSpec sin cos atan2) {m : M33 α} (ha : Affine2 m) {r : Res2 α}
-    (he : ear33 tmax (Gen.V2.length tmin sqrt) m = some r) :
+    (he : ear33 tmax (Gen.V2.length tmin tmax sqrt) m = some r) :
     (Gen.M33.sansScaling tmin tmax sqrt sin cos atan2 m).toMat = shearH2 r.shr * linH2 r.m * transH2 ⟨m.x20, m.x21⟩ ∧
     scaleH2 r.scl * (Gen.M33.sansScaling tmin tmax sqrt sin cos atan2 m).toMat = m.toMat := by
   have key : (Gen.M33.sansScaling tmin tmax sqrt sin cos atan2 m).toMat =
@@ -32,7 +32,7 @@ theorem M33_sansScaling_recompose {tmin tmax : α} {sqrt sin cos : α → α} {a
     simp only at h0 e11 e01 hc e2 e4
     subst e11 e01
     have l0 := len_eq_one (V2_length_spec (tmin := tmin) hs) R11 (-R10) h0
-    have l1 : Gen.V2.length tmin sqrt ⟨R10, R11⟩ = 1 := by
+    have l1 : Gen.V2.length tmin tmax sqrt ⟨R10, R11⟩ = 1 := by
       apply len_eq_one (V2_length_spec hs); rw [← hc]; ring
     obtain ⟨tc, ts⟩ := ht R11 R10 hc
     simp only [Gen.M33.sansScaling, e1, e2, e4, l0, l1, one_ne_zero, if_false, div_one, tc, ts]
@@ -47,7 +47,7 @@ theorem M33_sansScaling_recompose {tmin tmax : α} {sqrt sin cos : α → α} {a
 /-- `removeScaling (Matrix33)`: returns true and leaves shear * rotation * translation in `m` -/
 theorem M33_removeScaling_recompose {tmin tmax : α} {sqrt sin cos : α → α} {atan2 : α → α → α}
     (hs : SqrtSpec sqrt) (ht : TrigSpec sin cos atan2) {m : M33 α} (ha : Affine2 m) {r : Res2 α}
-    (he : ear33 tmax (Gen.V2.length tmin sqrt) m = some r) :
+    (he : ear33 tmax (Gen.V2.length tmin tmax sqrt) m = some r) :
     (Gen.M33.removeScaling tmin tmax sqrt sin cos atan2 m).1 = true ∧
     (Gen.M33.removeScaling tmin tmax sqrt sin cos atan2 m).2.toMat = shearH2 r.shr * linH2 r.m * transH2 ⟨m.x20, m.x21⟩ ∧
     scaleH2 r.scl * (Gen.M33.removeScaling tmin tmax sqrt sin cos atan2 m).2.toMat = m.toMat := by
